@@ -23,7 +23,7 @@ EXPLANATION = (
     "(shapes that forward serde(skip..) themselves are exempt from the count) - an attribute the macro puts on the data type (untagged, flatten, skip) "
     "that makes same-shaped variants indistinguishable on load or drops a field shows here."
 )
-NOT_DECIDED = ("all programs of the grammar (only the enumerated family); round-trip VALUE equality; what forwarded serde attributes do at run time")
+NOT_DECIDED = ("all programs of the grammar (only the enumerated family); round-trip VALUE equality; what forwarded serde attributes do at run time R4 (order): in every generated convert_into / convert_from the calls into the fields' own code (a field's conversion, the clone of a passed-through field) run in declaration order - ids allocates markers as it is called and a failing field leaves done what ran before it. The component shapes request their storage with other attributes before and after #[storage(..)].")
 TRUSTED = ["rustc nightly macro expansion, type checking and MIR", "serde_derive", "sa/ analyses"]
 LEVEL_TEXT = ("Enumerated family, not all programs: for every member the generated conversions are checked field by field on their MIR, and storage "
               "selection by type equality. The pinned suite compiles neither specs-derive's save/load derive nor src/saveload.")
